@@ -89,7 +89,7 @@ def main(ck):
     info = {}
     nefc_any = 0
     for (solver, island, jac) in variants:
-      if solver == PGS and jac == E.mjJAC_SPARSE and redM:
+      if (solver == PGS or case.get('diagexact')) and jac == E.mjJAC_SPARSE and redM:
         labels.add('excluded:sparse-pgs-on-reduced-M')
         jac = E.mjJAC_DENSE
       m.opt.solver, m.opt.jacobian = solver, jac
